@@ -2,6 +2,8 @@
 import MdwModel.Driver.Live
 import MdwModel.Model.Regs
 import MdwModel.Model.Maps
+import MdwModel.Model.Stack
+import MdwModel.Generated.Source
 namespace Mdw.Drv.LiveProps
 open Mdw Mdw.Drv Mdw.Drv.Live
 
@@ -373,5 +375,95 @@ def runLive07 (kv : List (String × String)) : IO Res := do
   let expected := stackStarts.length + lc.cfg.app.length
   if ml.length < expected then return .propfail "memory list shorter than stacks + application regions" tags
   return .ok tags (some s!"{ml.length}/{lc.cfg.app.map (·.2)}/{tags.eraseDups}")
+
+/-- C06 on a real dump: every listed thread's captured stack against the model's region -/
+def runLive06 (kv : List (String × String)) : IO Res := do
+  let lc ← match ← loadLive kv with
+    | .ok l => pure l
+    | .error e => return .bad e
+  let mut tags := cfgTags lc.cfg
+  if lc.result != "ok" then return .ok ("dump.failed" :: tags)
+  let ms := aggregate none lc.maps
+  let n := lc.threads.length
+  -- position of the image when the limit decision is taken: header, directory, count, records
+  let currPos := 32 + 12 * Src.numWriters + 4 + 48 * n
+  let extra := extraLimit lc.cfg.limit n currPos
+  if extra.isSome then tags := "limit.exceeded" :: tags
+  let mut idx := 0
+  for t in lc.threads do
+    let i := idx
+    idx := idx + 1
+    let some exp := lc.thr.find? (fun e => e.tid == t.tid) | continue
+    if exp.spin then continue
+    let crashThread := lc.cfg.crash.isSome && t.tid == lc.cfg.blamed
+    let sp := if crashThread then greg lc.cfg.gregs REG_RSP else exp.rsp
+    match getStackInfo ms 4096 sp with
+    | .ok (valid, len) =>
+      let (rs, rl) := capRegion valid len sp (maxStackLen lc.cfg.limit extra i crashThread)
+      if (rs, rl) != (valid, len) then tags := "thread.shortened" :: tags
+      if i ≥ 20 then tags := "thread.late" :: tags
+      -- the property itself, on the implementation's record
+      if !(t.stackStart ≤ sp && sp < t.stackStart + t.stackSize) then
+        return .propfail s!"thread #{i} ({t.tid}): captured stack [{t.stackStart},+{t.stackSize}) does not contain the stack pointer {sp}" tags
+      if t.stackSize < len then
+        -- shortened: only with a limit, at list position ≥ 20, never the crash-context thread, ≤ 2 KiB
+        if lc.cfg.limit.isNone || i < 20 || crashThread then
+          return .propfail s!"thread #{i} ({t.tid}) was shortened although it is exempt" tags
+        if t.stackSize > 2048 then return .propfail s!"shortened stack of {t.stackSize} bytes" tags
+      else
+        if t.stackStart != sp - sp % 4096 && t.stackStart != valid then
+          return .propfail s!"thread #{i}: region does not start on the stack pointer's page" tags
+      -- correspondence with the model
+      if (t.stackStart, t.stackSize) != (rs, rl) then
+        return .mismatch s!"thread #{i} ({t.tid}) sp {sp}: captured [{t.stackStart},+{t.stackSize}), model [{rs},+{rl})" tags
+      -- bytes from the stack pointer upward equal the target's memory
+      if !lc.cfg.sanitize then
+        let some bytes := lc.img.bytes t.stackRva t.stackSize | return .propfail "stack bytes outside the image" tags
+        let mut k := 0
+        for b in bytes do
+          let a := t.stackStart + k
+          if a ≥ sp then
+            match memAt lc.mem a with
+            | some m => if m != b then return .propfail s!"thread #{i}: stack byte at {a} is {b}, the target has {m}" tags
+            | none => pure ()
+          k := k + 1
+      tags := "stack.checked" :: tags
+    | _ =>
+      if t.stackSize != 0 then return .mismatch s!"thread #{i}: a stack was captured where the model finds none" tags
+      tags := "stack.none" :: tags
+  return .ok tags (some s!"{n}/{(get kv "spoff").getD "-"}/{tags.eraseDups}")
+
+/-- C20 on a real dump: which stacks are included -/
+def runLive20 (kv : List (String × String)) : IO Res := do
+  let lc ← match ← loadLive kv with
+    | .ok l => pure l
+    | .error e => return .bad e
+  let mut tags := cfgTags lc.cfg
+  if lc.result != "ok" then return .ok ("dump.failed" :: tags)
+  let some addr := lc.cfg.principal | return .ok ("noskip" :: tags)
+  let ms := aggregate none lc.maps
+  let principal := (findMappingNoBias ms addr).map (fun m => (m.sysStart, m.sysEnd))
+  if principal.isNone then tags := "principal.none" :: tags
+  for t in lc.threads do
+    let some exp := lc.thr.find? (fun e => e.tid == t.tid) | continue
+    if exp.spin then continue
+    let crashThread := lc.cfg.crash.isSome && t.tid == lc.cfg.blamed
+    let sp := if crashThread then greg lc.cfg.gregs REG_RSP else exp.rsp
+    let ip := if crashThread then greg lc.cfg.gregs REG_RIP else exp.rip
+    -- records and contexts of excluded stacks are still present
+    if t.ctxSize != OFF.total then return .propfail s!"thread {t.tid}: context missing" tags
+    match getStackInfo ms 4096 sp with
+    | .ok (valid, len) =>
+      -- the stack as the target holds it (snapshot), to evaluate the rule independently
+      let stackBytes : Bytes := (List.range len).map (fun k => (memAt lc.mem (valid + k)).getD 0)
+      let covered := (memAt lc.mem valid).isSome && (memAt lc.mem (valid + len - 1)).isSome
+      if !covered then continue
+      let want := includeStack true principal ip stackBytes (sp - valid)
+      let got := t.stackSize > 0
+      tags := (if want then "stack.included" else "stack.excluded") :: tags
+      if got != want then
+        return .propfail s!"thread {t.tid}: stack {if got then "included" else "excluded"}, but ip {ip} / its stack {if want then "do" else "do not"} reference the principal mapping {principal}" tags
+    | _ => pure ()
+  return .ok tags (some s!"{lc.threads.length}/{principal.isSome}/{tags.eraseDups}")
 
 end Mdw.Drv.LiveProps
